@@ -12,9 +12,9 @@ extend-range protocol (`Store/ExtRangeModel.lean`, `Store/ExtRangePrep.lean`) in
 * `bprep <workers> <separator@id,…> <key:pn,…>` / `lprep <workers> <ids> <key,…>` — `prepare_workers`:
   `<low>/<high>/<op start>/<op end>/<left 0|1>/<right 0|1>;…`
 * `bmulti <workers> <separator@id,…> <changes>` / `lmulti <workers> <ids> <key:cell|-,…>` — the whole stage:
-  `W<op start>[R=<entries>|<new high>|<new right 0,1,2>;…;F=<entries>|x<extra freed>] … lvl=<…> freed=<old pns, sorted>
+  `W<op start>[R=<entries>|<new high>|<new right 0,1,2>;…;F=<entries>|x<extra freed>|l=<low>|h=<high>] … lvl=<…> freed=<old pns, sorted>
   extra=<n> sched=<same|DIFF>`; an entry is `<key>:<deleted|->:<inserted 0|1>:<next|->`.  `R=` the responses the worker
-  received, in order; `F=` its tracker when it returned.  The mirror runs the schedule "every worker until it blocks, left to
+  received, in order; `F=` its tracker when it returned, then `|l=<range.low>|h=<range.high>` at that moment.  The mirror runs the schedule "every worker until it blocks, left to
   right, repeat" and, for `sched=`, also "one step each, right to left, repeat" and compares the two final states.
 * a panic: `panic`
 -/
@@ -99,7 +99,7 @@ def xrShowWorker {σ N C : Type} (g : G σ N C) (log : List (Nat × Resp N)) (st
     let nr := match x.2.newRight with | none => 0 | some none => 1 | some (some _) => 2
     s!"R={xrShowInner x.2.changed}|{luShowOptKey x.2.newHigh}|{nr}"
   let w := g.ws i
-  let f := s!"F={xrShowInner w.tr.inner}|x{w.tr.extraFreed.length}"
+  let f := s!"F={xrShowInner w.tr.inner}|x{w.tr.extraFreed.length}|l={luShowOptKey w.low}|h={luShowOptKey w.high}"
   s!"W{start}[{";".intercalate (rs ++ [f])}]"
 
 /-- the final trackers as a comparable value (for `sched=`) -/
